@@ -368,7 +368,8 @@ func (s *Storage) LoadComponent(component interface{}) (bool, error) {
 // LoadStores loads all stores from storage to StoresInfo.
 func (s *Storage) LoadStores(f func(store *StoreInfo)) error {
 	nextID := uint64(0)
-	endKey := s.storePath(math.MaxUint64)
+	// LoadRange excludes the end key, append "\x00" to include the store with the largest ID.
+	endKey := s.storePath(math.MaxUint64) + "\x00"
 	for {
 		key := s.storePath(nextID)
 		_, res, err := s.LoadRange(key, endKey, minKVRangeLimit)
@@ -392,6 +393,10 @@ func (s *Storage) LoadStores(f func(store *StoreInfo)) error {
 
 			nextID = store.GetId() + 1
 			f(newStoreInfo)
+		}
+		if nextID == 0 {
+			// The store with the largest ID has been loaded (nextID wrapped around), or nothing was found.
+			return nil
 		}
 		if len(res) < minKVRangeLimit {
 			return nil
